@@ -16,6 +16,8 @@ EXPLANATION = (
     "slot; the timed and untimed arms of the action loop run the same calls.")
 NOT_DECIDED = "bit-identity of results; the order in which make_track_id hands out ids"
 
+TECHNIQUE = ('initialiser completeness from AST record fields vs transitive write sets; must-pass rules on reset/reseed/initialisation; observer-inertness by call-graph reachability to non-const view methods; sibling-arm comparison')
+
 UNITS = [
     "src/celeritas/track/InitializeTracksAction.cc",
     "src/celeritas/track/ExtendFromSecondariesAction.cc",
